@@ -53,9 +53,13 @@ def run(ctx, rep, tier):
     rep.rule("G14", "initial allocation = cells with positive demand", 1)
     rep.rule("TW", "refine/coarsen X/Y twins agree", 2)
     rep.rule("LV", "bin indices passed to the base grid are translated through the hierarchy limits", 2)
+    rep.rule("CS", "the capacity a region adds to the bins depends on that region alone (no scan state carried from one region to the next)", 1)
+    rep.rule("FC", "row / region bounds are never offset in floating point and truncated back (expected count 0; control in selftest/c16_controls.cpp)", 1)
     rep.rule("IX", "bin indices are not derived from coordinate / size divisions", 1)
     check_levels(ctx, rep)
     check_index_origin(ctx, rep)
+    check_carried_scan(ctx, rep)
+    check_float_coordinates(ctx, rep)
     for fld, ok in WRITERS.items():
         from .common import check_writers
         check_writers(ctx, rep, "W6", H + fld, ok, fld)
@@ -166,7 +170,7 @@ def run(ctx, rep, tier):
             if vd and children(vd[0]):
                 rc = canon(children(vd[0])[-1])
                 if rc[0] == "index" and "binCells_" in pretty(rc) and any(
-                        y.get("kind") == "CXXMemberCallExpr" and callee_info(y)["name"] == "push_back" for y in walk(ch[-1])):
+                        y.get("kind") == "CXXMemberCallExpr" and callee_info(y)["name"] in ("push_back", "emplace_back") for y in walk(ch[-1])):
                     k, lp = range_of(x)
                     gathers.append((x, k, lp))
     for c in clears:
@@ -186,6 +190,34 @@ def run(ctx, rep, tier):
                 ", ".join(pretty(g_[1]) for g_ in gk), [" and ".join(pretty(a) for a, v in x_) or "no condition" for x_ in gg]),
                 "a bin that is collected but not emptied keeps its cells while they are also handed to other bins: cells end up in several bins",
                 key="DensityLegalizer::reoptimize|collected bins not all emptied")
+    # no way out between collecting the cells of the candidate bins and emptying those bins (an early return taken in between leaves
+    # the collected cells in their old bins *and* hands them to the bin that is refilled)
+    rg = cfg_of(ro)
+    cnodes = [rg.node_for(c) for c in clears]
+    cnodes = [n_ for n_ in cnodes if n_ is not None]
+    # running the emptying loop at all counts as passing it (the collecting loop ran over the same non-empty list)
+    for c in clears:
+        lp_ = c
+        while lp_ is not None and lp_.get("kind") not in ("CXXForRangeStmt", "ForStmt", "WhileStmt"):
+            lp_ = lp_.get("_p")
+        if lp_ is not None:
+            inside = {id(y) for y in walk(lp_)}
+            cnodes += [n_ for n_ in rg.nodes if n_.ast is not None and id(n_.ast) in inside]
+    for gx, _k, _lp in gathers:
+        body_nodes = [rg.node_for(y) for y in walk(gx) if y.get("kind") == "CXXMemberCallExpr" and callee_info(y)["name"] in ("push_back", "emplace_back", "insert")]
+        body_nodes = [n_ for n_ in body_nodes if n_ is not None]
+        if not body_nodes or not cnodes:
+            continue
+        stores = [rg.node_for(y) for y in walk(ro.body) if y.get("kind") == "CXXMemberCallExpr" and callee_info(y)["qname"] == H + "setBinCells"]
+        stores = [n_ for n_ in stores if n_ is not None]
+        reach = rg.reachable_from(body_nodes[:1], avoid=cnodes)
+        # leaving without having stored anything changes nothing (the early `nothing to do` return); leaving after a store does
+        if any(st.idx in reach and (rg.exit.idx in rg.reachable_from([st], avoid=cnodes)) for st in stores):
+            rep.violation("R7c", gx, ro, "a path leaves reoptimize after the cells were collected and before the candidate bins are emptied",
+                          "on that path the collected cells stay listed in their old bins while they are also stored into the bin that is refilled: "
+                          "cells end up in several bins", key="DensityLegalizer::reoptimize|exit between collecting and emptying")
+        else:
+            rep.holds("R7c", gx, ro, "no exit between collecting the cells and emptying the candidate bins")
     # reallocation loops
     loops = [for_loop_info(x) for x in walk(ro.body) if x.get("kind") == "ForStmt"]
     loops = [l for l in loops if l]
@@ -193,7 +225,7 @@ def run(ctx, rep, tier):
     def body_has(l, pred):
         return any(pred(y) for y in walk(l["body"]))
     cells_loop = [l for l in loops if l["hi"] and l["hi"][0] == "call" and l["hi"][1] == "size" and
-                  body_has(l, lambda y: y.get("kind") == "CXXMemberCallExpr" and callee_info(y)["name"] == "push_back" and
+                  body_has(l, lambda y: y.get("kind") == "CXXMemberCallExpr" and callee_info(y)["name"] in ("push_back", "emplace_back") and
                            canon(callee_info(y)["obj"])[0] == "index" and canon(callee_info(y)["obj"])[2][0] == "index")]
     bins_loop = [l for l in loops if l["hi"] and l["hi"][0] == "call" and l["hi"][1] == "size" and
                  body_has(l, lambda y: y.get("kind") == "CXXMemberCallExpr" and callee_info(y)["qname"] == H + "setBinCells")]
@@ -250,7 +282,7 @@ def run(ctx, rep, tier):
         rep.unknown("G14", "-", None, "constructor", "not found")
     else:
         c = ctor[0]
-        pushes = [x for x in walk(c.body) if x.get("kind") == "CXXMemberCallExpr" and callee_info(x)["name"] == "push_back" and
+        pushes = [x for x in walk(c.body) if x.get("kind") == "CXXMemberCallExpr" and callee_info(x)["name"] in ("push_back", "emplace_back") and
                   canon(callee_info(x)["obj"])[0] == "var" and "vector<int>" in qt(callee_info(x)["obj"])]
         good = False
         if not pushes:
@@ -421,3 +453,81 @@ def _subvars(c):
             if isinstance(x, tuple):
                 out += _subvars(x)
     return out
+
+
+def check_carried_scan(ctx, rep):
+    """CS. DensityGrid::updateBinCapacity(regions) adds, for every region, its overlap with every bin. The regions (row pieces) come
+    in no particular order, so nothing but the capacities themselves may be carried from one region to the next: a local declared
+    outside the loop over the regions and modified inside it (a `first bin that can still intersect` index, a sweep position)
+    makes the bins visited for a region depend on the regions seen before."""
+    prog = ctx.prog
+    fs = [f for f in prog.func(H.replace("HierarchicalDensityPlacement::", "DensityGrid::") + "updateBinCapacity", required=False) or [] if f.params and "vector" in qt(f.params[0])]
+    if len(fs) != 1:
+        rep.unknown("CS", None, None, "DensityGrid::updateBinCapacity(regions)", "not found")
+        return
+    f = fs[0]
+    p0 = ("var", f.params[0].get("id"), f.params[0].get("name"))
+    loops = []
+    for x in walk(f.body):
+        if x.get("kind") == "CXXForRangeStmt":
+            var = inner(list(inner(x))[6])[0]
+            if var.get("_rangevar") is not None and canon(var["_rangevar"]) == p0:
+                loops.append(x)
+        elif x.get("kind") == "ForStmt":
+            li = for_loop_info(x)
+            if li and li["hi"] == ("call", "size", p0):
+                loops.append(x)
+    if not loops:
+        rep.unknown("CS", f.decl, f, "loop over the regions", "not found (shape changed)")
+        return
+    for lp in loops:
+        inside = {id(y) for y in walk(lp)}
+        carried = {}
+        for y in walk(lp):
+            k = y.get("kind")
+            tgt = None
+            if k in ("BinaryOperator", "CompoundAssignOperator") and y.get("opcode", "").endswith("=") and y.get("opcode") not in ("==", "!=", "<=", ">="):
+                tgt = canon(children(y)[0], refs=False)
+            elif k == "UnaryOperator" and y.get("opcode") in ("++", "--"):
+                tgt = canon(children(y)[0], refs=False)
+            if tgt is not None and tgt[0] == "var":
+                d = f.unit.by_id.get(tgt[1])
+                if d is not None and d.get("kind") == "VarDecl" and id(d) not in inside:
+                    carried[tgt[1]] = (tgt, y)
+        if carried:
+            v, y = sorted(carried.values(), key=lambda t: t[0][2])[0]
+            rep.violation("CS", y, f, "local %s is declared outside the loop over the regions and modified inside it" % v[2],
+                          "the bins examined for a region depend on the regions processed before it: regions that arrive in another order "
+                          "(rows listed top-down, shuffled row pieces) are partly skipped and the capacity falls below the free area",
+                          key="DensityGrid::updateBinCapacity|scan state carried across regions")
+        else:
+            rep.holds("CS", lp, f, "each region is accounted for on its own: nothing but binCapacity_ is modified across iterations")
+
+
+def check_float_coordinates(ctx, rep):
+    """FC. The capacity grid must tile exactly the clipped rows: their bounds are integers and every offset applied to them (the
+    side margin) is an integer too. `row.minX + margin` with a floating margin is evaluated in floating point and truncated when it
+    is stored into the integer bound: 4.5 removes 4 units on one side and 5 on the other, and bounds above 2^24 move."""
+    import os
+    from ..frontend import VERIF
+    from ..model import Program
+    from .common import float_offset_coordinates
+    prog = ctx.prog
+
+    def coord(c):
+        return c[1].split("::")[-1] in ("minX", "maxX", "minY", "maxY")
+    fs = [f for f in prog.all_funcs(with_lambdas=False) if f.cls in (CQ + "DensityGrid", H[:-2]) and f.body is not None]
+    hits = float_offset_coordinates(prog, fs, coord)
+    for x, f, c in hits:
+        rep.violation("FC", x, f, "%s is evaluated in floating point and truncated to an integer bound" % pretty(c)[:60],
+                      "the two sides of a row are rounded differently and large coordinates are not representable: the grid no longer spans "
+                      "the clipped rows and bin capacities differ from the free row area", key="%s|bound offset in floating point" % f.short)
+    ctl = Program.from_files([os.path.join(VERIF, "selftest", "c16_controls.cpp")])
+    ch = float_offset_coordinates(ctl, list(ctl.all_funcs(with_lambdas=False)), coord)
+    names = sorted({f.short.split("::")[-1] for _x, f, _c in ch})
+    if names == ["clipFloat", "clipInto"]:
+        if not hits:
+            rep.holds("FC", "src/place_global/density_grid.cpp", None, "no row / region bound is offset in floating point (%d functions examined)" % len(fs),
+                      "positive controls clipFloat / clipInto reported, negative control clipInt silent")
+    else:
+        rep.unknown("FC", "selftest/c16_controls.cpp", None, "controls of rule FC", "expected exactly clipFloat and clipInto to be reported, got %s" % names)
